@@ -11,7 +11,7 @@ per case by the harness, not modelled), `normaliseL` the documented normal form 
 The tables (`liveClsInfo`, `htmlRegistry`, `xmlRegistry`, `livePCfg`) are generated from the live objects on
 every run. -/
 namespace BS.Props.C05
-open BS.Render BS.Gen
+open BS.Render BS.Gen.Render
 
 /-- the formatter object a registry entry describes, given the function its code stands for -/
 def mkFmt (g : Nat → Option (PStr → PStr)) (s : FmtSpec) : Fmt := ⟨g s.substKind, s.voidPrefix, s.cdataTags, s.emptyBool⟩
